@@ -1,8 +1,9 @@
 import Driver.Proto
+import XsdataModel.Codegen.CircularRefs
 import XsdataModel.Py.TblEnv
 import XsdataModel.Names.TblUEnv
 import XsdataModel.Names.RenameClasses
-open Lean Proto Py Xs.Text Xs.Filters Xs.Rename
+open Lean Proto Py Xs.Codegen Xs.Codegen.Refs Xs.Text Xs.Filters Xs.Rename
 
 namespace OpsNames
 
@@ -58,6 +59,48 @@ def run (op : String) (a : Json) : Option (Except String Json) :=
       | "module" => pure <| resJson (moduleName e u moduleConv s)
       | "package" => pure <| resJson (packageName e u packageConv s)
       | k => .error s!"bad kind {k}"
+  | "names.detect_circular" => some do
+      -- DetectCircularReferences over a flattened class forest
+      let es ← getArr a "edges"
+      let edges ← es.mapM (fun j => do
+        pure ({ tgt := ← getNat j "tgt", forward := ← getBool j "fwd", native := ← getBool j "nat",
+                circular := ← getBool j "circ" } : TEdge))
+      let nats := fun (j : Json) (k : String) => do
+        let xs ← getArr j k
+        xs.mapM (fun x => match x.getNat? with | .ok n => pure n | .error _ => .error "nat")
+      let rts ← getArr a "ref_types"
+      let rt ← rts.mapM (fun j => do pure (← getNat j "ref", ← nats j "ids"))
+      let os ← getArr a "proc"
+      let order ← os.mapM (fun j => do pure ({ ref := ← getNat j "ref", own := ← nats j "own" } : CClass))
+      pure <| match detectCircular rt edges order with
+        | some out => ok (jList (fun e : TEdge => jBool e.circular) out)
+        | none => err "KeyError"
+  | "names.is_circular" => some do
+      let es ← getArr a "edges"
+      let edges ← es.mapM (fun j => do
+        pure ({ tgt := ← getNat j "tgt", forward := ← getBool j "fwd", native := ← getBool j "nat",
+                circular := ← getBool j "circ" } : TEdge))
+      let nats := fun (j : Json) (k : String) => do
+        let xs ← getArr j k
+        xs.mapM (fun x => match x.getNat? with | .ok n => pure n | .error _ => .error "nat")
+      let rts ← getArr a "ref_types"
+      let rt ← rts.mapM (fun j => do pure (← getNat j "ref", ← nats j "ids"))
+      pure <| match isCircular edges rt (← getNat a "start") (← getNat a "stop") with
+        | .ok b => ok (jBool b)
+        | .keyError => err "KeyError"
+        | .fuel => Proto.jObj [("fail", Json.str "model fuel exhausted")]
+  | "names.resolve_conflict" => some do
+      let ts ← (← getArr a "target").mapM getAttr
+      let bs ← (← getArr a "base").mapM getAttr
+      let r := resolveConflict ts bs (← getNat a "child")
+      pure <| ok (jList (jList jStr) [r.1.map (·.name), r.2.map (·.name)])
+  | "names.rename_inners" => some do
+      let ns ← getStrs a "names"
+      pure <| ok (jList jStr (renameInners ns []))
+  | "names.ref_class_qname" => some do
+      let src ← getStr a "source"; let n ← getStr a "name"; let inner ← getBool a "inner"
+      let ins ← getStrs a "inner_names"
+      pure <| optStrJson (refClassQName src n inner ins)
   | "names.filters_init" => some do
       let ps ← getStrs a "prefixes"
       pure <| if filtersInit ps then ok (jBool true) else err "CodegenError"
